@@ -56,9 +56,6 @@ theorem encodeEntries_append (a b : List Entry) :
     encodeEntries (a ++ b) = encodeEntries a ++ encodeEntries b := by
   simp [encodeEntries]
 
-/-- total serialized size -/
-def sizeSum (es : List Entry) : Nat := (es.map Entry.size).sum
-
 theorem encodeEntries_length (es : List Entry) : (encodeEntries es).length = sizeSum es := by
   induction es with
   | nil => rfl
@@ -140,7 +137,7 @@ def blockResOf (r : Except Err (List Entry)) (rest : Bytes) : BlockRes :=
 theorem readNextBlock_encodeBlock_gen (cfg : Cfg) (codec : Codec) (crc : Checksum) (es : List Entry)
     (rest : Bytes) (hcount : es.length < 2 ^ 16) (hsize : sizeSum es < 2 ^ 31 + 2 ^ 17) :
     readNextBlock cfg codec.toDecoder crc (encodeBlock codec crc es ++ rest)
-      = blockResOf (parseEntries es.length (encodeEntries es)) rest := by
+      = blockResOf (finishParse cfg (encodeEntries es).length (parseEntries es.length (encodeEntries es))) rest := by
   have hu : (encodeEntries es).length < 2 ^ 31 + 2 ^ 17 := by rw [encodeEntries_length]; exact hsize
   have hc : (codec.enc (encodeEntries es)).length < 2 ^ 32 := enc_length_lt codec _ hu
   have hcrc : (crc (codec.enc (encodeEntries es))).toNat < 2 ^ 32 := UInt32.toNat_lt _
@@ -164,7 +161,7 @@ theorem readNextBlock_encodeBlock_gen (cfg : Cfg) (codec : Codec) (crc : Checksu
   rw [take_append_len _ _ _ rfl, drop_append_len _ _ _ rfl]
   have hpb : parseBlock cfg codec.toDecoder crc
       ⟨c.length, (encodeEntries es).length, es.length, (crc c).toNat, 0⟩ c
-        = parseEntries es.length (encodeEntries es) := by
+        = finishParse cfg (encodeEntries es).length (parseEntries es.length (encodeEntries es)) := by
     unfold parseBlock
     have hnd : (decide (32 * c.length + 64 < codec.toDecoder.declLen c)) = false := by
       simp only [decide_eq_false_iff_not]; omega
@@ -172,7 +169,7 @@ theorem readNextBlock_encodeBlock_gen (cfg : Cfg) (codec : Codec) (crc : Checksu
     have : (encodeEntries es).length % 2 ^ 32 = (encodeEntries es).length := Nat.mod_eq_of_lt (by omega)
     simp only [this, bne_self_eq_false, Bool.and_false, Bool.false_eq_true, if_false]
   rw [hpb]
-  cases parseEntries es.length (encodeEntries es) <;> rfl
+  cases finishParse cfg (encodeEntries es).length (parseEntries es.length (encodeEntries es)) <;> rfl
 
 /-- `readNextBlock` on a block written by `flushLocked`, whatever follows it
     (for every lawful codec, every checksum, every value of the code facts). -/
@@ -182,7 +179,8 @@ theorem readNextBlock_encodeBlock (cfg : Cfg) (codec : Codec) (crc : Checksum) (
   rw [readNextBlock_encodeBlock_gen cfg codec crc es rest hg.count hg.size]
   have hpe := parseEntries_encodeEntries es [] hg.enc
   rw [List.append_nil] at hpe
-  rw [hpe]; rfl
+  rw [hpe]
+  simp [finishParse, encodeEntries_length, blockResOf]
 
 /-- a zero key-length field is always rejected: this is what an empty key *and* a 65536-byte key
     look like on disk -/
